@@ -244,3 +244,81 @@ def random_table(rng):
         rules.append((name, tok, starts, tgt, rng.choice(lits)))
     inp = "".join(rng.choice(["a", "b", "ab", "c", "aa", "?"]) for _ in range(rng.randint(0, 8)))
     return rules, states, inp
+
+
+# ---- look-behind family (known finding C09-lookbehind-slice) ---------------------------------
+# rules whose regex looks at the text BEFORE the position (`^` under multi_line, `\A`, `\b`, `\B`,
+# `\b{start}`, ...) next to plain rules that consume the same text, so that such a rule is tried at
+# positions that are not the start of the input / of a line / of a word.
+LOOK_FRAGS = [
+    ("^a", ["a"]), ("^[a-z]+", ["ab", "if"]), ("^#[a-z]+", ["#inc"]), ("\\Aa", ["a"]), ("\\A[a-z]", ["x", "a"]),
+    ("\\bfoo", ["foo"]), ("\\b[0-9]+", ["1", "42"]), ("\\bif\\b", ["if"]), ("\\Bb", ["b"]), ("\\Ba+", ["a", "aa"]),
+    ("(?m:^)x", ["x"]), ("(?-m)^a", ["a"]), ("\\b{start}if", ["if"]), ("\\b{start-half}[a-z]+", ["ab", "x"]),
+    ("(^|x)a", ["a", "xa"]), ("(?:\\b|_)z", ["z", "_z"]), ("\\B_", ["_"]),
+    # assertions inside / at the end of the match: flagged by the HIR, the rows of the two tables agree
+    ("a\\b", ["a"]), ("[a-z]+\\b", ["ab", "foo"]), ("a$", ["a"]), ("[0-9]\\B", ["1"]), ("x\\b{end}", ["x"]),
+]
+LOOK_PLAIN = [
+    ("a", ["a"]), ("b", ["b"]), ("x", ["x"]), ("z", ["z"]), ("[a-z]", ["c", "q"]), ("[a-z]+", ["ab", "foo", "if"]),
+    ("[0-9]", ["1"]), ("[0-9]+", ["42"]), ("\\n", ["\n"]), ("[ ]+", [" "]), ("_", ["_"]), ("#", ["#"]),
+    ("foo", ["foo"]), ("if", ["if"]), ("\\r", ["\r"]), ("\u00e9", ["\u00e9"]), ("-", ["-"]),
+]
+LOOK_FLAGS = ["multi_line", "unicode", "case_insensitive", "dot_matches_new_line"]
+
+# the auditors' inputs (C09 audit 1 (a), (b); C11 audit 5 (1), (2), (3)), then hand-written ones
+LOOK_CORPUS = [
+    ("%%\n^a 'LINE_START_A'\nb 'B'\na 'A'\n", ["ba", "ab\na", "aa"]),
+    ("%%\nx 'X'\n\\bfoo 'FOO'\n", ["xfoo", "foo", "x foo"]),
+    ("%%\n^a 'BOL_A'\na 'A'\n\\n 'NL'\n", ["aa\na", "a\naa\n"]),
+    ("%%\n\\Aa 'FIRST'\na 'A'\n", ["aa", "a"]),
+    ("%%\n[a-z] 'L'\n\\b[0-9] 'NUM'\n", ["a1", "1a1", "11"]),
+    ("%%\n\\Bb 'INNER_B'\nb 'B'\na 'A'\n[ ] ;\n", ["ab b", "bb"]),
+    ("%%\n\\b{start}if 'IF'\n[a-z] 'CH'\n", ["ifif", "xif if"]),
+    # start states: the assertion is evaluated after a push, in the middle of the text
+    ("%x S\n%%\n\\( <+S>'OPEN'\n<S>^a 'BOL_A'\n<S>a 'A'\n<S>\\) <-S>'CLOSE'\n<S>\\n 'NL'\n", ["(a)", "(aa\na)", "(\naa)"]),
+    # `^` without multi_line is `\A`
+    ("%grmtools {!multi_line}\n%%\n^a 'FIRST'\na 'A'\n\\n 'NL'\n", ["a\na", "aa"]),
+]
+LOOK_CORPUS_FLAGS = {8: "multi_line=0"}
+
+
+def look_spec(rng):
+    sp = Spec()
+    fr = dict(LOOK_FRAGS + LOOK_PLAIN)
+    res = [f for f, _ in rng.sample(LOOK_FRAGS, rng.randint(1, 3))] + \
+          [f for f, _ in rng.sample(LOOK_PLAIN, rng.randint(1, 4))]
+    rng.shuffle(res)
+    with_state = rng.random() < 0.25
+    if with_state:
+        sp.states.append(("S", rng.random() < 0.6))
+    for i, re in enumerate(res):
+        r = {"re": re, "samples": fr[re], "name": None if rng.random() < 0.15 else "T%d" % i, "starts": [], "target": None}
+        if with_state and rng.random() < 0.5:
+            r["starts"] = rng.choice([["S"], ["INITIAL", "S"], ["INITIAL"]])
+        sp.rules.append(r)
+    if with_state:
+        sp.rules.insert(rng.randint(0, len(sp.rules)),
+                        {"re": "\\(", "samples": ["("], "name": "OPEN", "starts": [], "target": ("push", "S")})
+        sp.rules.insert(rng.randint(0, len(sp.rules)),
+                        {"re": "\\)", "samples": [")"], "name": "CLOSE", "starts": ["S"], "target": ("pop", "S")})
+    if rng.random() < 0.25:
+        for f in rng.sample(LOOK_FLAGS, rng.randint(1, 2)):
+            sp.flags[f] = rng.random() < 0.5
+    return sp
+
+
+def look_input(rng, sp):
+    pool = [s for r in sp.rules for s in r["samples"]]
+    parts = []
+    for _ in range(rng.randint(2, 9)):
+        x = rng.random()
+        if x < 0.7:
+            parts.append(rng.choice(pool))
+        elif x < 0.9:
+            parts.append(rng.choice(["\n", " ", "_", "\r\n", "-"]))
+        else:
+            parts.append(rng.choice(rng.choice(LOOK_PLAIN)[1]))
+    s = "".join(parts)
+    if sp.flags.get("case_insensitive") and rng.random() < 0.4:
+        s = s.upper()
+    return s
